@@ -46,6 +46,15 @@ func validateWriteRequest(req *proto.WriteRequest) error {
 				return status.Error(codes.InvalidArgument, kv.ErrSequenceDeltaIsZero.Error())
 			}
 		}
+		for _, si := range put.GetSecondaryIndexes() {
+			if err := validateSecondaryIndex(si); err != nil {
+				return err
+			}
+		}
+		if len(put.GetSecondaryIndexes()) > 0 && put.GetKey() == "" && len(put.GetSequenceKeyDelta()) == 0 {
+			// The index entries end with the (escaped) primary key: with an empty one they could not be read back
+			return status.Error(codes.InvalidArgument, "oxia: secondary indexes on a record with an empty key")
+		}
 	}
 
 	for _, del := range req.GetDeletes() {
@@ -64,6 +73,30 @@ func validateWriteRequest(req *proto.WriteRequest) error {
 		}
 	}
 
+	return nil
+}
+
+// validateSecondaryIndex checks that an index declaration can be represented by the key of its index entry,
+// "__oxia/idx/<index name>/<secondary key>\x01<escaped primary key>" (see secondaryIndexKey).
+//
+// The index name ends at the first '/' and the secondary key at the first separator: an empty name, a name with
+// a '/', an empty secondary key or a secondary key with a separator gives an entry that is read back as an entry
+// of another index, with another primary key, or not at all. The entries of an index are ordered by secondary key
+// only if the separator sorts before every byte of a secondary key, which rules out the bytes up to the separator.
+func validateSecondaryIndex(si *proto.SecondaryIndex) error {
+	if si.GetIndexName() == "" || strings.Contains(si.GetIndexName(), "/") {
+		return status.Errorf(codes.InvalidArgument, "oxia: invalid secondary index name %q: it must not be empty nor contain '/'",
+			si.GetIndexName())
+	}
+	if si.GetSecondaryKey() == "" {
+		return status.Errorf(codes.InvalidArgument, "oxia: empty secondary key for index %q", si.GetIndexName())
+	}
+	for i := 0; i < len(si.GetSecondaryKey()); i++ {
+		if si.GetSecondaryKey()[i] <= secondaryIdxSeparator[0] {
+			return status.Errorf(codes.InvalidArgument, "oxia: invalid secondary key %q for index %q: it must not contain bytes up to 0x%02x",
+				si.GetSecondaryKey(), si.GetIndexName(), secondaryIdxSeparator[0])
+		}
+	}
 	return nil
 }
 
